@@ -9,7 +9,10 @@ out = sys.argv[3] if len(sys.argv) > 3 else '/tmp/mut/out/' + pid
 res = {'id': pid, 'worktree': wt}
 diff = subprocess.run(['git', '-C', wt, 'diff'], capture_output=True, text=True).stdout
 res['patch_matches_worktree'] = diff.strip() == open(os.path.join(out, 'patch.diff')).read().strip()
-res['patch_applies_to_repo_head'] = subprocess.run(['git', '-C', '/repo', 'apply', '--check', os.path.join(out, 'patch.diff')]).returncode == 0
+pristine0 = '/tmp/mut/pristine'
+if not os.path.exists(pristine0):
+    subprocess.run(['git', '-C', '/repo', 'worktree', 'add', '--detach', pristine0, 'HEAD'], capture_output=True)
+res['patch_applies_to_repo_head'] = subprocess.run(['git', '-C', pristine0, 'apply', '--check', os.path.join(out, 'patch.diff')]).returncode == 0
 t = time.time()
 junit = os.path.join(out, 'confirm_junit.xml')
 subprocess.run(['/venv/bin/python', '-m', 'pytest', '-q', '-p', 'no:cacheprovider', '--timeout=900',
@@ -24,7 +27,10 @@ for tc in ET.parse(junit).iter('testcase'):
 miss = sorted(n for n in stable if st.get(n) != 'pass')
 res['stable_passing'] = len(stable) - len(miss)
 res['stable_not_passing'] = miss[:10]
-for name, tree in (('demo_unchanged', '/repo'), ('demo_changed', wt)):
+pristine = '/tmp/mut/pristine'
+if not os.path.exists(pristine):
+    subprocess.run(['git', '-C', '/repo', 'worktree', 'add', '--detach', pristine, 'HEAD'], capture_output=True)
+for name, tree in (('demo_unchanged', pristine), ('demo_changed', wt)):
     p = subprocess.run(['/venv/bin/python', os.path.join(out, 'demo.py'), tree], cwd='/tmp', capture_output=True, text=True, timeout=1200)
     res[name] = {'exit': p.returncode, 'last_line': (p.stdout.strip().split('\n') or [''])[-1][:200]}
 res['confirmed'] = bool(res['patch_matches_worktree'] and res['patch_applies_to_repo_head'] and not miss
